@@ -10,7 +10,9 @@ CFG = {
                   "documented function of silence x two timeouts (forced Disconnected-before-Failed, zeros disabling) and the "
                   "checking deadline. The two Go timing functions are REGENERATED from agent.go on every run and proved equal "
                   "to the model for all non-negative Int64 durations (a continuous domain no sample covers).",
-    "level_note": "What is proved is the ENQUEUE order of notifications (updateConnectionState -> notifier); callback DELIVERY "
+    "level_note": "T tie for the ORDER of effects of setSelectedPair (pair stored before the state becomes Connected) and "
+                  "updateConnectionState (on Failed the release precedes the notification): both regenerated in effect mode on every run, the "
+                  "theorems state the effect lists (C04_code_setSelectedPair, C04_code_updateConnectionState). What is proved is the ENQUEUE order of notifications (updateConnectionState -> notifier); callback DELIVERY "
                   "order is C11's. The history theorems are about the model; the model is tied to the code (a) by translation + "
                   "proof for connectionStateForDisconnection / initialCheckingTimeout (tie T) and (b) by differential "
                   "correspondence of the whole agent under testing/synctest virtual time (tie C: same operation sequences, "
@@ -21,7 +23,7 @@ CFG = {
     "rule": "quick: generated agent sessions (timeout configurations incl. 0 and lite defaults, ticks, traffic, Restart, Close) "
             "plus the corpus corpus/C04/agent.ops (F13 replay for lite and full agents; a full lifecycle with Restart and Close). "
             "Distinct = distinct (operation, digest) lines; non-trivial = not bad-op/ended.",
-    "translated": ["Agent.connectionStateForDisconnection", "Agent.initialCheckingTimeout"],
+    "translated": ["Agent.connectionStateForDisconnection", "Agent.initialCheckingTimeout", "Agent.setSelectedPair", "Agent.updateConnectionState"],
     "trusted_base": ["HMAC is modelled as perfect (integrity verifies iff the key is the expected password)",
                      "time.Since(time.Time{}) saturates to the maximum Duration"],
     "assumptions": ["receiver fields read by the translated methods are passed as parameters (harness/gotolean/spec/T_Agent.json)",
